@@ -5,7 +5,8 @@ namespace Memterm
 
 def isHexDigit (c : Nat) : Bool := (48 ≤ c && c ≤ 57) || (97 ≤ c && c ≤ 102)
 
-def isHexStr (s : List Nat) : Bool := decide (s.length ≥ 6) && s.all isHexDigit
+/-- `rrggbb`: exactly six hexadecimal digits -/
+def isHexStr (s : List Nat) : Bool := decide (s.length = 6) && s.all isHexDigit
 
 /-- the documented colour names, written out -/
 def colourNames : List (List Nat) :=
